@@ -714,6 +714,18 @@ def _invalid_table(vd):
     T["BlockReduce.filter: data shorter"] = lambda: vd.BlockReduce(np.mean, spacing=1.0).filter((e, n), d0[:-1])
     T["BlockReduce.filter: weights shorter"] = lambda: vd.BlockReduce(np.average, spacing=1.0).filter((e, n), d0, w0[:-1])
     T["BlockReduce.filter: weight components"] = lambda: vd.BlockReduce(np.average, spacing=1.0).filter((e, n), (d0, d1), (w0,))
+    # a coordinate array of ONE element next to arrays of many (round 9, seed C20-17: a point matrix filled column by column, which
+    # broadcasts the single value instead of refusing it)
+    T["distance_mask: one-element northing for the data"] = lambda: vd.distance_mask((e, n[:1]), 1.0, coordinates=PROBE)
+    T["distance_mask: one-element northing for the query"] = lambda: vd.distance_mask((e, n), 1.0, coordinates=(PROBE[0], PROBE[1][:1]))
+    T["KNeighbors.predict: one-element northing"] = lambda: vd.KNeighbors().fit((e, n), d0).predict((PROBE[0], PROBE[1][:1]))
+    T["KNeighbors.fit: one-element northing"] = lambda: vd.KNeighbors().fit((e, n[:1]), d0)
+    T["median_distance: one-element northing"] = lambda: vd.median_distance((e, n[:1]))
+    T["kdtree: one-element northing"] = lambda: vd.utils.kdtree((e, n[:1]))
+    T["block_split: one-element northing"] = lambda: vd.block_split((e, n[:1]), spacing=1.0)
+    T["rolling_window: one-element northing"] = lambda: vd.rolling_window((e, n[:1]), size=1.0, spacing=0.5)
+    T["expanding_window: one-element northing"] = lambda: vd.expanding_window((e, n[:1]), (1.0, 1.0), [1.0])
+    T["convexhull_mask: one-element northing for the data"] = lambda: vd.convexhull_mask((e, n[:1]), coordinates=PROBE)
     # a weights tuple that mixes arrays and None (round 8, seed C20-16: "no weights" decided by any() instead of all())
     T["Vector.fit: weights (array, None)"] = lambda: vd.Vector([vd.Trend(1), vd.Trend(1)]).fit((e, n), (d0, d1), (w0, None))
     T["VectorSpline2D.fit: weights (None, array)"] = lambda: vd.VectorSpline2D(mindist=0.5, damping=1e-2).fit((e, n), (d0, d1), (None, w0))
@@ -843,6 +855,16 @@ def run(case, rec):
         return
     if kind == "unfitted":
         est = SPECS[case["spec"]](vd)
+        if case["spec"] in ("Chain", "Vector"):
+            # a Chain / Vector assembled from components that were ALREADY fitted elsewhere but never fitted itself is still unfitted
+            # (round 9, seed C20-18: fittedness delegated to the components)
+            ea_, na_, d0a_, d1a_ = _pts("a")
+            pre = vd.Chain([("t", vd.Trend(1).fit((ea_, na_), d0a_)), ("s", vd.Spline(damping=1e-2).fit((ea_, na_), d0a_))]) if case["spec"] == "Chain" \
+                else vd.Vector([vd.Trend(1).fit((ea_, na_), d0a_), vd.KNeighbors(k=1).fit((ea_, na_), d1a_)])
+            for name, f in (("predict", lambda: pre.predict(PROBE)), ("grid", lambda: pre.grid(shape=(2, 2), region=(0, 1, 0, 1))),
+                            ("profile", lambda: pre.profile((0, 0), (1, 1), 3)), ("scatter", lambda: pre.scatter(region=(0, 1, 0, 1), size=3))):
+                got = call(rec, f)
+                rec.check(raised(got), "%s of pre-fitted components: %s before fitting the %s itself did not raise" % (case["spec"], name, case["spec"]))
         for name, f in (("predict", lambda: est.predict(PROBE)), ("grid", lambda: est.grid(shape=(2, 2), region=(0, 1, 0, 1))),
                         ("score", lambda: est.score(PROBE, PROBE[0] if case["spec"] not in VECTOR_SPECS else (PROBE[0], PROBE[1]))),
                         ("profile", lambda: est.profile((0, 0), (1, 1), 3)), ("scatter", lambda: est.scatter(region=(0, 1, 0, 1), size=3))):
